@@ -10,8 +10,8 @@ type runCfg = hx.RunCfg
 
 type gen struct{ *hx.Gen }
 
-func newGen(seed int64) *gen               { return &gen{hx.NewGen(seed)} }
-func (g *gen) intn(n int) int              { return g.Intn(n) }
-func (g *gen) chance(p float64) bool       { return g.Chance(p) }
-func (g *gen) pick(xs []string) string     { return g.Pick(xs) }
-func (g *gen) pickInt(xs []int64) int64    { return xs[g.Intn(len(xs))] }
+func newGen(seed int64) *gen            { return &gen{hx.NewGen(seed)} }
+func (g *gen) intn(n int) int           { return g.Intn(n) }
+func (g *gen) chance(p float64) bool    { return g.Chance(p) }
+func (g *gen) pick(xs []string) string  { return g.Pick(xs) }
+func (g *gen) pickInt(xs []int64) int64 { return xs[g.Intn(len(xs))] }
